@@ -239,9 +239,10 @@ Definition message_from_reader (md : mode) (bs : bytes) (fuel : nat) (s e : N) :
      let mut reader = BytesReader::from_bytes(rest);          start = 0, end = rest.len()
      reader.read_message_by_len(rest, len)                    = read_len(Message::from_reader, len)
    Fuel: every loop gets `length rest + 1` iterations.  Without overrun an iteration consumes at least
-   the tag byte, so this is never exhausted (C08_decode_total); in general a loop over a fixed `end`
-   is a deterministic function of `start`, successful iterations have `start < len rest`, so a run
-   that exhausts the fuel has repeated a `start` and does not terminate. *)
+   the tag byte, so this is never exhausted (proved: C08_decode_total).  In general (informal
+   argument, not proved here) a loop over a fixed `end` is a deterministic function of `start`,
+   successful iterations have `start < len rest`, so a run that exhausts the fuel has repeated a
+   `start` and does not terminate; see also C08_decode_refuted_more_fuel. *)
 Definition qp_fuel (rest : bytes) : nat := S (length rest).
 
 Definition x_read_message (md : mode) (rest : bytes) (n : N) : xres message :=
